@@ -54,6 +54,39 @@ def lane_cases(kernels, seed, tier):
             for lo in (0, 1, 0xFFFFFFFF, 0xFFFFFFFE):
                 a = ((h ^ 0x80000000) << 32) | lo
                 pairs.append((a, 0xFFFFFFFF00000000)); pairs.append((a, 0xFFFFFFFF)); pairs.append((a, 1)); pairs.append((a, (P - 1 - lo) % M))
+        # carry boundaries inside the product: operands chosen (by inverses mod 2^32) so that the low halves of the two
+        # middle partial products take prescribed values t1, t2 and the column sum hi(al*bl) + t1 + t2 sits exactly at a
+        # carry boundary (2^32 - 1 | 2^32 | 2^33 - 1 | 2^33); for the 8-bit kernels the single column hi(al*b) + lo(ah*b)
+        if 'mult' in k or 'square' in k:
+            W32 = 1 << 32
+            def inv32(x):
+                return pow(x, -1, W32)
+            small = k.endswith('_8') or k.endswith('_72')
+            for i in range(40 if tier == 'quick' else 600):
+                if small:
+                    b = [3, 5, 7, 9, 255, 253, 129, 127, 1, 17][i % 10]
+                    al = [0xFFFFFFFF, 0xFFFFFFFE, rng.below(W32), 0x80000001][i % 4]
+                    c = (al * b) >> 32
+                    for t1 in ((W32 - c) % W32, (W32 - c - 1) % W32, W32 - 1):
+                        ah = (t1 * inv32(b)) % W32
+                        pairs.append(((ah << 32) | al, b))
+                else:
+                    al = rng.below(W32) | 1; bl = rng.below(W32) | 1
+                    if i % 5 == 0:
+                        al = 0xFFFFFFFF
+                    if i % 7 == 0:
+                        bl = 0xFFFFFFFF
+                    c = (al * bl) >> 32
+                    for tgt in (W32 - 1, W32, 2 * W32 - 1, 2 * W32):
+                        t1 = [W32 - 1, rng.below(W32), 0x80000000][i % 3]
+                        t2 = tgt - c - t1
+                        if not (0 <= t2 < W32):
+                            t1 = max(0, min(W32 - 1, tgt - c - (W32 - 1))); t2 = tgt - c - t1
+                        if not (0 <= t2 < W32):
+                            continue
+                        ah = (t1 * inv32(bl)) % W32; bh = (t2 * inv32(al)) % W32
+                        a = (ah << 32) | al; b = (bh << 32) | bl
+                        pairs.append((a, a) if 'square' in k else (a, b))
         pairs = [fit(k, a, b) for a, b in pairs]
         while len(pairs) % L:
             pairs.append(fit(k, rng.word(), rng.word()))
